@@ -1,4 +1,6 @@
 import RawPanelVerif.Lemmas.OutSound
+import RawPanelVerif.Lemmas.OutCBinding
+import RawPanelVerif.Gen.Consts
 /-!
 # C03 — Panel messages keep their meaning when written as ASCII lines
 
@@ -9,9 +11,15 @@ Kernels, each for ALL values (no bounds, no enumeration):
 * `event_line`       : every id (32 bit) × edge ∈ {0,1,2,4,8,16} × pressed — the reader returns the event;
 * `value_ranges`     : `%d` of every signed / unsigned 32-bit value re-reads to the same value (incl. the boundaries);
   `enc_line`, `speed_line`, `abs_line`, `raw_line` : the four value-carrying event lines;
-* `caps_all_subsets` : all 2^13 capability sets, proved over the capability table;
+* `caps_all_subsets` : all 2^13 capability sets, proved over the capability table; `caps_table_tie` : that table
+  (`Cap.all`, `Cap.name`, `Cap.goField`) IS the one regenerated from the encoder's and the decoder's Go source;
 * `map_line`, `register_line`;
-* `encOut_no_lf`     : no returned string contains a line feed (C07 at the return site), for every input.
+* `encOut_no_lf`     : no returned string contains a line feed (C07 at the return site), for every input;
+* `msg_line_verbatim`, `errormsg_line_verbatim`, `profile_lines_verbatim`, `topology_lines_verbatim` : a message text /
+  error text / JSON profile / topology JSON without line feed and without white space at its two ends is on the
+  produced line byte for byte (interior white space included); the SVG likewise plus one blank where it does not end
+  in `>`; `payload_exact_noLF` : the Spec's effect of such a payload is the payload itself (up to the white space at
+  its two ends), so an encoder that eats interior blanks fails both the theorem and the check on its real output.
 
 Main theorem:
 * `encOut_sound_full` : for every list of messages of the ASCII-representable domain (`Spec.Out.inDomainOut`, decidable:
@@ -22,11 +30,14 @@ Main theorem:
   messages / events / registers / map entries.
   Hence (`encOut_sound_full_approx`) the executable comparison `Spec.Out.approx` the check evaluates on the real output holds.
   Payload fields may have any line structure, indentation and white space whatsoever, including multi-byte white-space
-  runes (NBSP, U+2003, U+3000 …) at line edges: the C07 flattening keeps exactly the white-space-free content
-  (`C07.strip_content` under the guard `Strip.JoinSafe`, which valid UTF-8 implies: `OutLemmas.joinSafe_of_payloadOk`;
-  the SVG flattening keeps it for every byte string).  The validity of the payloads is needed: see
-  `C07.contentEq_invalid_utf8_counterexample` (`E2 80 ⏎ 85 41` flattens to a string beginning with the white-space rune
-  U+2005).
+  runes (NBSP, U+2003, U+3000 …) at line edges.  JSON profiles, topology JSON and message texts are compared in the C07
+  normal form `Spec.Out.normLines` (every line without the white space at its two ends, concatenated): everything but
+  line feeds and white space at line edges must survive, in order — interior white space included.  This needs the
+  flattening of a valid UTF-8 string to be trimmed again (`Strip.strip_trimmed`, Lemmas/StripIdem.lean: no white-space
+  rune forms across a joint or at the ends); for byte strings that are not valid UTF-8 it is false
+  (`C07.contentEq_invalid_utf8_counterexample`: `E2 80 ⏎ 85 41` flattens to a string beginning with U+2005).
+  The topology SVG alone is compared by its white-space-free content (`Spec.Strip.contentOf`), for every byte string:
+  its flattening inserts a blank where a line does not end in `>`.
   `encOut_sound` is the earlier statement with the additional hypothesis `flatMsg` (payloads ASCII, or flattening =
   identity), kept unchanged; it is now a corollary.
   One extra hypothesis, visible:
@@ -34,6 +45,12 @@ Main theorem:
     (`effectsOfOut` takes the `%.1f`/`%.2f` text from the oracle); no float is interpreted.
   The availability map is emitted in the order of the association list, so the theorem covers every order Go's map
   iteration may choose.
+
+C binding (`rawpanel-lib-c/main.go` `OutboundMessageToRawPanelASCIIstring`: LF-join, `C.CString`):
+* `cbinding_lines` : if no returned string contains NUL, the C caller (reading to the first NUL, splitting at LF) gets
+  exactly the returned strings; `encOut_no_nul` : no NUL in the message's strings / oracle texts ⇒ none in the output
+  (every output byte is a field byte, a printable ASCII byte or the blank replacing a line feed);
+  `cbinding_nul_truncates_counterexample` : a NUL in a field cuts the C string there (observation; NUL is not printable).
 -/
 namespace RawPanelVerif.C03
 open RawPanelVerif RawPanelVerif.Bytes RawPanelVerif.MsgOut RawPanelVerif.EncOut RawPanelVerif.Spec.Out
@@ -110,6 +127,133 @@ theorem encOut_sound (o : OutOracle) (ms : List OutMsg) (h : InDomainOutFlat o m
 
 theorem encOut_sound_approx (o : OutOracle) (ms : List OutMsg) (h : InDomainOutFlat o ms) (hpf : ∀ t, o.parseF t = t) :
     approx (ms.map (effectsOfOut o)) (readOutbound o (encOut o ms)) = true := encOut_sound_full_approx o ms h.1 hpf
+
+def exOracle0 : OutOracle := ⟨fun _ t => t, fun t => t, fun _ => [], fun _ => none⟩
+
+/-! ## payloads: what the produced line carries, exactly -/
+
+theorem flowLines0 : flowLines 0 = [] := by decide
+
+theorem strip_flat (t : Bytes) (h10 : noLF t = true) (ht : trimSpace t = t) : Strip.stripLineBreaks t = t := by
+  rw [Strip.strip_noLF t ((OutLemmas.noLF_iff t).1 h10), ht]
+
+theorem singleLine_key (k t : Bytes) (hk : (10 : UInt8) ∉ k) (h10 : noLF t = true) : Strip.singleLine (k ++ t) = k ++ t :=
+  C07.singleLine_id _ (by
+    intro h; simp only [List.mem_append] at h
+    rcases h with h | h
+    · exact hk h
+    · exact (OutLemmas.noLF_iff t).1 h10 h)
+
+/-- **A message text without line feed and without white space at its two ends is written verbatim**: every byte of it,
+interior white space included, is on the produced line -/
+theorem msg_line_verbatim (o : OutOracle) (t : Bytes) (h10 : noLF t = true) (ht : trimSpace t = t) :
+    encOut o [{ message := some t }] = [kMsg ++ t] := by
+  unfold encOut
+  simp only [List.flatMap_cons, List.flatMap_nil, List.append_nil]
+  unfold encMsgRaw
+  simp only [flowLines0, optLine, optLines, List.append_nil, List.nil_append, List.map_nil, List.flatMap_nil, List.map_cons]
+  rw [strip_flat t h10 ht, singleLine_key _ t (by decide) h10]
+
+/-- likewise the error message, the three JSON profiles and the topology JSON -/
+theorem errormsg_line_verbatim (o : OutOracle) (t : Bytes) (h10 : noLF t = true) (ht : trimSpace t = t) :
+    encOut o [{ errorMsg := some t }] = [kErrorMsg ++ t] := by
+  unfold encOut
+  simp only [List.flatMap_cons, List.flatMap_nil, List.append_nil]
+  unfold encMsgRaw
+  simp only [flowLines0, optLine, optLines, List.append_nil, List.nil_append, List.map_nil, List.flatMap_nil, List.map_cons]
+  rw [strip_flat t h10 ht, singleLine_key _ t (by decide) h10]
+
+theorem profile_lines_verbatim (o : OutOracle) (t : Bytes) (h10 : noLF t = true) (ht : trimSpace t = t) :
+    encOut o [{ burnin := some t }] = [kBurnin ++ t] ∧ encOut o [{ calibration := some t }] = [kCalib ++ t] ∧
+    encOut o [{ defaultCalibration := some t }] = [kDefCalib ++ t] := by
+  refine ⟨?_, ?_, ?_⟩ <;>
+  · unfold encOut
+    simp only [List.flatMap_cons, List.flatMap_nil, List.append_nil]
+    unfold encMsgRaw
+    simp only [flowLines0, optLine, optLines, List.append_nil, List.nil_append, List.map_nil, List.flatMap_nil, List.map_cons]
+    rw [strip_flat t h10 ht, singleLine_key _ t (by decide) h10]
+
+/-- the topology: the JSON verbatim; the SVG verbatim plus one blank where it does not end in `>` -/
+theorem topology_lines_verbatim (o : OutOracle) (svg json : Bytes) (hs10 : noLF svg = true) (hst : trimSpace svg = svg)
+    (hj10 : noLF json = true) (hjt : trimSpace json = json) :
+    encOut o [{ topology := some { svgbase := svg, json := json } }] =
+      [kSvgbase ++ (if Strip.endsWithGt svg then svg else svg ++ [32]), kTopoHWC ++ json] := by
+  have hsvg : Strip.stripLineBreaksSvg svg = (if Strip.endsWithGt svg then svg else svg ++ [32]) := by
+    unfold Strip.stripLineBreaksSvg
+    rw [splitOn_nosep 10 svg ((OutLemmas.noLF_iff svg).1 hs10)]
+    simp [Strip.svgPart, hst]
+  unfold encOut
+  simp only [List.flatMap_cons, List.flatMap_nil, List.append_nil]
+  unfold encMsgRaw
+  simp only [flowLines0, optLine, optLines, topologyLines, List.append_nil, List.nil_append, List.map_nil, List.flatMap_nil,
+    List.map_cons]
+  rw [strip_flat json hj10 hjt, singleLine_key _ json (by decide) hj10, hsvg]
+  congr 1
+  apply C07.singleLine_id
+  intro h
+  simp only [List.mem_append] at h
+  rcases h with h | h
+  · exact absurd h (by decide)
+  · split at h
+    · exact (OutLemmas.noLF_iff svg).1 hs10 h
+    · simp only [List.mem_append, List.mem_singleton] at h
+      rcases h with h | h
+      · exact (OutLemmas.noLF_iff svg).1 hs10 h
+      · exact absurd h (by decide)
+
+/-- **the Spec compares such payloads exactly**: the effect of a JSON / message payload without line feed is the payload
+itself up to the white space at its two ends (`normLines t = trimSpace t`) — a reader seeing `Msg=helloworld` for the
+message text `hello world` reports a different effect -/
+theorem payload_exact_noLF (key t : Bytes) (h10 : noLF t = true) :
+    payloadEff key t = (if trimSpace t = [] then [] else [.info key (.payload (trimSpace t))]) := by
+  unfold payloadEff
+  rw [OutLemmas.normLines_eq_strip, Strip.strip_noLF t ((OutLemmas.noLF_iff t).1 h10)]
+
+example : encOut exOracle0 [{ message := some (asc "hello  world") }] = [asc "Msg=hello  world"] ∧
+    payloadEff (asc "Msg") (asc "hello  world") ≠ payloadEff (asc "Msg") (asc "helloworld") ∧
+    payloadEff (asc "Msg") (asc "hello  world") ≠ payloadEff (asc "Msg") (asc "hello world") ∧
+    payloadEff (asc "Msg") (asc " hello\n  world ") = payloadEff (asc "Msg") (asc "helloworld") := by decide
+
+/-! ## the C binding -/
+
+/-- **`rawpanel-lib-c` `OutboundMessageToRawPanelASCIIstring`**: the strings are joined with LF and handed over as a
+NUL-terminated C string.  If no returned string contains a NUL byte, the C caller (reading up to the first NUL, splitting
+at LF) recovers exactly the returned strings — in particular, by `encOut_sound_full`, the events and information of the
+message.  (A message without any line, or whose only line is empty, arrives as the empty string.) -/
+theorem cbinding_lines (o : OutOracle) (m : OutMsg) (h0 : ∀ l ∈ encOut o [m], (0 : UInt8) ∉ l) :
+    cBindingLines o m = (if encOut o [m] = [[]] then [] else encOut o [m]) := OutLemmas.cbinding_lines o m h0
+
+/-- no NUL in the string fields / list items / register ids / oracle texts of the messages (`OutLemmas.msgStrings`) ⇒ no
+NUL in any returned string.  More generally every byte of a returned string is a byte of one of those strings, a
+printable ASCII byte, or the blank replacing a line feed (`OutLemmas.encOut_bytes`). -/
+theorem encOut_no_nul (o : OutOracle) (ms : List OutMsg) (hs : ∀ m ∈ ms, ∀ s ∈ OutLemmas.msgStrings o m, (0 : UInt8) ∉ s) :
+    ∀ l ∈ encOut o ms, (0 : UInt8) ∉ l := OutLemmas.encOut_no_nul o ms hs
+
+/-- **a NUL byte in a string field truncates what the C caller sees** (C.CString): everything after it — here the rest
+of the model name and the whole `_serial` line — is lost.  NUL is not a printable character: outside the property's
+quantifier, recorded as an observation. -/
+theorem cbinding_nul_truncates_counterexample :
+    encOut exOracle0 [{ panelInfo := some { model := [65, 0, 66], serial := asc "S1" } }] = [[95, 109, 111, 100, 101, 108, 61, 65, 0, 66], asc "_serial=S1"] ∧
+    cBindingLines exOracle0 { panelInfo := some { model := [65, 0, 66], serial := asc "S1" } } = [asc "_model=A"] := by decide
+
+/-! ## the capability table is the one in the Go source -/
+
+/-- `Cap.all` (emission order), `Cap.name` and `Cap.goField` are exactly the table regenerated from the encoder's source
+(`if …RawPanelSupport.<Field> { support = append(support, "<Name>") }`), the decoder's `case "<Name>": supportObj.<Field> =
+true` table names the same pairs, `capOfName` maps each name to the capability of that field, and the Spec's own list of
+names (`capNames`, order of the .proto fields) names the same set -/
+theorem caps_table_tie :
+    Gen.encoderSupportTable.map (fun p => (p.1, asc p.2)) = Cap.all.map (fun c => (Cap.goField c, Cap.name c)) ∧
+    ((∀ p ∈ Gen.decoderSupportTable, p ∈ Gen.encoderSupportTable) ∧ (∀ p ∈ Gen.encoderSupportTable, p ∈ Gen.decoderSupportTable)) ∧
+    (∀ c ∈ Cap.all, DecOut.capOfName (Cap.name c) = some c) ∧
+    (∀ n, n ∈ capNames ↔ n ∈ Cap.all.map Cap.name) := by
+  refine ⟨by decide +kernel, by decide +kernel, by decide +kernel, ?_⟩
+  intro n
+  rw [OutLemmas.capNames_eq]
+  simp only [List.mem_map]
+  constructor
+  · rintro ⟨c, _, rfl⟩; exact ⟨c, OutLemmas.cap_mem_all c, rfl⟩
+  · rintro ⟨c, _, rfl⟩; exact ⟨c, OutLemmas.cap_mem_spec c, rfl⟩
 
 def exOracle : OutOracle := ⟨fun _ t => t, fun t => t, fun _ => asc "{}", fun _ => some {}⟩
 
